@@ -1,12 +1,212 @@
 /-
 Driver commands of property C06 (core Lean only).  Command names start with "c06.".
+
+Record syntax (12 tokens): name flags ref pos mapq cigar mate matepos tlen seq qual aux
+  name   hex bytes, `-` when empty
+  ref    `*` or `id:namehex:len`
+  cigar  `typ:len,typ:len` or `-`
+  seq    one hex digit per base (the 4-bit code), `-` when empty
+  qual   `nil`, `-` (empty, not nil) or hex bytes
+  aux    `-` or items joined by `;`, an item is `TTTT:code:payload` with TTTT the tag in hex and
+         code/payload: `A`/byte hex, `c C s S i I`/decimal, `f`/8 hex digits (bits), `Z H`/hex bytes or `-`,
+         `Bc BC Bs BS Bi BI`/decimals joined by `,` or `-`, `Bf`/bits joined by `,` or `-`
+Header syntax: `nil`, `-` (no references) or `namehex:len,namehex:len`.
+Float table: `-` or `bits=texthex,...` (bits = 8 hex digits); formatting looks up bits, parsing looks up text.
+Results: `ok ...`, `err`, `panic`.
 -/
 import Hts.Drv.Util
+import Hts.Model.SamText
+import Hts.Model.SamTextSpec
 namespace Hts.Drv.C06
-open Hts.Drv
+open Hts.Drv Hts.Model.SamText
+open Hts.Model.Coord (CigarOp)
+
+def bytesOfHex (s : String) : Option Bytes := (parseHex s).map (·.map UInt8.ofNat)
+def hexOfBytes (b : Bytes) : String := hexOfNats (b.map UInt8.toNat)
+
+def hex8 (n : Nat) : String :=
+  String.ofList ((List.range 8).reverse.map fun i => hexDigit (n / 16 ^ i % 16))
+
+def parseBits (s : String) : Option UInt32 := do
+  let bs ← parseHex s
+  if bs.length ≠ 4 then none else some (UInt32.ofNat (bs.foldl (fun a b => a * 256 + b) 0))
+
+def parseFloatTab (s : String) : Option (List (UInt32 × Bytes)) :=
+  if s == "-" then some [] else
+  (s.splitOn ",").mapM fun e =>
+    match e.splitOn "=" with
+    | [b, t] => do some (← parseBits b, ← bytesOfHex t)
+    | _ => none
+
+def floatText (tab : List (UInt32 × Bytes)) : FloatText where
+  fmt := fun b => match tab.find? (·.1 == b) with | some e => e.2 | none => [63, 63]
+  parse := fun t => (tab.find? (·.2 == t)).map (·.1)
+
+def parseRef (s : String) : Option (Option Ref) :=
+  if s == "*" then some none else
+  match s.splitOn ":" with
+  | [i, n, l] => do some (some ⟨← parseInt i, ← bytesOfHex n, ← parseNat l⟩)
+  | _ => none
+
+def showRef : Option Ref → String
+  | none => "*"
+  | some r => s!"{r.id}:{hexOfBytes r.name}:{r.len}"
+
+def parseOp (s : String) : Option CigarOp :=
+  match s.splitOn ":" with
+  | [t, n] => do some ⟨← parseNat t, ← parseNat n⟩
+  | _ => none
+
+def parseCigarTok (s : String) : Option (List CigarOp) :=
+  if s == "-" then some [] else (s.splitOn ",").mapM parseOp
+
+def showCigar (c : List CigarOp) : String :=
+  if c.isEmpty then "-"
+  else if c.length ≤ 64 then ",".intercalate (c.map fun co => s!"{co.typ}:{co.len}")
+  else s!"#{c.length}:{c.foldl (fun a co => a + co.len) 0}:{(c.head?.map (·.typ)).getD 0}:{(c.getLast?.map (·.len)).getD 0}"
+
+def parseSeq (s : String) : Option (List (Fin 16)) :=
+  if s == "-" then some [] else s.toList.mapM fun c => (hexVal c).map (Fin.ofNat 16)
+
+def showSeq (s : List (Fin 16)) : String :=
+  if s.isEmpty then "-" else String.ofList (s.map fun x => hexDigit x.val)
+
+def parseQualTok (s : String) : Option (Option Bytes) :=
+  if s == "nil" then some none else (bytesOfHex s).map some
+
+def showQual : Option Bytes → String
+  | none => "nil"
+  | some q => hexOfBytes q
+
+def intTyOfCode (s : String) : Option IntTy :=
+  match s with
+  | "c" => some .c | "C" => some .C | "s" => some .s | "S" => some .S | "i" => some .i | "I" => some .I
+  | _ => none
+
+def codeOfIntTy : IntTy → String
+  | .c => "c" | .C => "C" | .s => "s" | .S => "S" | .i => "i" | .I => "I"
+
+def parseList {α} (f : String → Option α) (s : String) : Option (List α) :=
+  if s == "-" then some [] else (s.splitOn ",").mapM f
+
+def parseAuxItem (s : String) : Option Aux :=
+  match s.splitOn ":" with
+  | [tag, code, payload] => do
+    let tg ← bytesOfHex tag
+    match tg with
+    | [t0, t1] =>
+      let v : Option AuxVal :=
+        match code with
+        | "A" => do match ← bytesOfHex payload with | [c] => some (.char c) | _ => none
+        | "f" => (parseBits payload).map .float
+        | "Z" => (bytesOfHex payload).map .text
+        | "H" => (bytesOfHex payload).map .hex
+        | "Bf" => (parseList parseBits payload).map .floats
+        | _ =>
+          match intTyOfCode code with
+          | some ty => (parseInt payload).map (.int ty)
+          | none =>
+            if code.length == 2 && code.front == 'B' then
+              match intTyOfCode (code.drop 1).toString with
+              | some ty => (parseList parseInt payload).map (.ints ty)
+              | none => none
+            else none
+      v.map fun v => ⟨t0, t1, v⟩
+    | _ => none
+  | _ => none
+
+def showList {α} (f : α → String) (l : List α) : String :=
+  if l.isEmpty then "-" else ",".intercalate (l.map f)
+
+def showAuxItem (a : Aux) : String :=
+  let tag := hexOfBytes [a.t0, a.t1]
+  match a.val with
+  | .char c => s!"{tag}:A:{hexOfBytes [c]}"
+  | .int ty v => s!"{tag}:{codeOfIntTy ty}:{v}"
+  | .float b => s!"{tag}:f:{hex8 b.toNat}"
+  | .text t => s!"{tag}:Z:{hexOfBytes t}"
+  | .hex t => s!"{tag}:H:{hexOfBytes t}"
+  | .ints ty vs => s!"{tag}:B{codeOfIntTy ty}:{showList toString vs}"
+  | .floats vs => s!"{tag}:Bf:{showList (fun b => hex8 b.toNat) vs}"
+
+def parseAuxTok (s : String) : Option (List Aux) :=
+  if s == "-" then some [] else (s.splitOn ";").mapM parseAuxItem
+
+def showAuxTok (l : List Aux) : String :=
+  if l.isEmpty then "-" else ";".intercalate (l.map showAuxItem)
+
+def parseRecordToks : List String → Option Record
+  | [name, flags, ref, pos, mapq, cigar, mate, matepos, tlen, seq, qual, aux] => do
+    some { name := ← bytesOfHex name, flags := UInt16.ofNat (← parseNat flags), ref := ← parseRef ref,
+           pos := ← parseInt pos, mapq := UInt8.ofNat (← parseNat mapq), cigar := ← parseCigarTok cigar,
+           mateRef := ← parseRef mate, matePos := ← parseInt matepos, tempLen := ← parseInt tlen,
+           seq := ← parseSeq seq, qual := ← parseQualTok qual, aux := ← parseAuxTok aux }
+  | _ => none
+
+def showRecord (r : Record) : String :=
+  " ".intercalate [hexOfBytes r.name, toString r.flags.toNat, showRef r.ref, toString r.pos,
+    toString r.mapq.toNat, showCigar r.cigar, showRef r.mateRef, toString r.matePos, toString r.tempLen,
+    showSeq r.seq, showQual r.qual, showAuxTok r.aux]
+
+def parseHeader (s : String) : Option (Option Header) :=
+  if s == "nil" then some none
+  else if s == "-" then some (some ⟨[]⟩)
+  else do
+    let refs ← (s.splitOn ",").mapM fun e =>
+      match e.splitOn ":" with
+      | [n, l] => do some (← bytesOfHex n, ← parseNat l)
+      | _ => none
+    some (some ⟨refs⟩)
+
+def showFault : Fault → String
+  | .err => "err"
+  | .panic => "panic"
+
+def showRes {α} (f : α → String) : Except Fault α → String
+  | .ok a => "ok " ++ f a
+  | .error e => showFault e
+
+def parseFlagFmt (s : String) : Option FlagFmt :=
+  match s with
+  | "0" => some .dec | "1" => some .hex | "2" => some .str | _ => none
+
+/-- results of successive reads, up to and including the first failure -/
+def showReads : List (Except Fault Record) → List String
+  | [] => ["eof"]
+  | .ok r :: rest => ("ok " ++ showRecord r) :: showReads rest
+  | .error e :: _ => [showFault e]
 
 def handle (cmd : String) (args : List String) : Option String :=
   match cmd, args with
+  | "c06.fmt", f :: tab :: rec => do
+    let ft := floatText (← parseFloatTab tab)
+    some (showRes hexOfBytes (formatRecord ft (← parseFlagFmt f) (← parseRecordToks rec)))
+  | "c06.spec", h :: tab :: rec => do
+    let ft := floatText (← parseFloatTab tab)
+    let hd ← (← parseHeader h)
+    let r ← parseRecordToks rec
+    some ("ok " ++ hexOfBytes (Hts.Spec.SamLine.samLine ft.fmt (toSpec r)) ++ " " ++ boolStr (decide (HeaderOK hd ∧ Expressible hd r)))
+  | "c06.parse", [h, tab, line] => do
+    let ft := floatText (← parseFloatTab tab)
+    some (showRes showRecord (parseRecord ft (← parseHeader h) (← bytesOfHex line)))
+  | "c06.cigar", [b] => do some (showRes showCigar (parseCigar (← bytesOfHex b)))
+  | "c06.aux", [tab, b] => do
+    let ft := floatText (← parseFloatTab tab)
+    some (showRes showAuxItem (parseAux ft (← bytesOfHex b)))
+  | "c06.auxfmt", [tab, a] => do
+    let ft := floatText (← parseFloatTab tab)
+    some ("ok " ++ hexOfBytes (formatAux ft (← parseAuxItem a)))
+  | "c06.read", [h, tab, input] => do
+    let ft := floatText (← parseFloatTab tab)
+    let inp ← bytesOfHex input
+    match splitHeader (inp.length + 1) [] inp with
+    | none => some "newreader-err"
+    | some (hdrText, body) =>
+      if hdrText.isEmpty then some (" | ".intercalate (showReads (readAllNoHeader ft body)))
+      else
+        match ← parseHeader h with
+        | some hd => some (" | ".intercalate (showReads (readAll ft hd body)))
+        | none => none
   | _, _ => none
 
 end Hts.Drv.C06
